@@ -53,13 +53,15 @@ impl FromStr for Database {
                         .1,
                 );
             } else if line.starts_with("ua_os") {
-                ua_os_entries.append(
-                    &mut parse_ua_os(line)
-                        .map_err(|err| {
-                            DatabaseError::Parse(format!("fail to parse `ua_os`: {line}, {err}"))
-                        })?
-                        .1,
-                );
+                let (rest, mut entries) = parse_ua_os(line).map_err(|err| {
+                    DatabaseError::Parse(format!("fail to parse `ua_os`: {line}, {err}"))
+                })?;
+                if !rest.is_empty() {
+                    return Err(DatabaseError::Parse(format!(
+                        "fail to parse `ua_os`: {line}, remaining: {rest}"
+                    )));
+                }
+                ua_os_entries.append(&mut entries);
             } else if line.starts_with('[') && line.ends_with(']') {
                 cur_mod = Some(
                     parse_module(line)
@@ -276,11 +278,12 @@ fn parse_ua_os(input: &str) -> IResult<&str, Vec<(String, Option<String>)>> {
 }
 
 fn parse_key_value(input: &str) -> IResult<&str, (&str, Option<&str>)> {
-    let (input, (name, _, value)) =
-        (alphanumeric1, space0, opt(preceded((space0, tag("="), space0), alphanumeric1)))
-            .parse(input)?;
-
-    Ok((input, (name, value)))
+    // p0f syntax: `name` or `name=[text]`; a name may contain spaces ("Mac OS X")
+    pair(
+        nom::bytes::complete::take_while1(|c: char| c != ',' && c != '='),
+        opt(preceded(tag("=["), terminated(take_until("]"), char(']')))),
+    )
+    .parse(input)
 }
 
 fn parse_label(input: &str) -> IResult<&str, Label> {
